@@ -63,7 +63,7 @@ pub fn run(a: &Args) {
     let mut rng = Rng::new(a.seed);
     let rt = tokio::runtime::Builder::new_multi_thread().worker_threads(2).enable_all().build().unwrap();
     let shared = Arc::new(Mutex::new(Shared::default()));
-    let (disc, strat) = rt.block_on(async {
+    let disc = rt.block_on(async {
         let listener = tokio::net::TcpListener::bind("127.0.0.1:0").await.unwrap();
         let port = listener.local_addr().unwrap().port();
         let m = Mock(shared.clone());
@@ -73,7 +73,13 @@ pub fn run(a: &Args) {
             .serve_with_incoming(tokio_stream::wrappers::TcpListenerStream::new(listener)));
         tokio::time::sleep(std::time::Duration::from_millis(50)).await;
         let url = format!("http://127.0.0.1:{port}");
-        (GrpcDiscoveryAdapter::new(url.clone()).await.expect("discovery adapter"), GrpcStrategyAdapter::new(url).await.expect("strategy adapter"))
+        (GrpcDiscoveryAdapter::new(url.clone()).await.expect("discovery adapter"), GrpcStrategyAdapter::new(url.clone()).await.expect("strategy adapter"), url)
+    });
+    let (disc, strat, url) = (disc.0, disc.1, disc.2);
+    // the same adapters as the application builds and wraps them (configuration value -> factory -> Dyn wrapper)
+    let (disc_app, strat_app) = rt.block_on(async {
+        (passage::adapter::discovery::DynDiscoveryAdapter::from_config(passage::config::DiscoveryAdapter::Grpc(passage::config::GrpcDiscovery { address: url.clone() })).await.expect("discovery through the factory"),
+         passage::adapter::strategy::DynStrategyAdapter::from_config(passage::config::StrategyAdapter::Grpc(passage::config::GrpcStrategy { address: url.clone() })).await.expect("strategy through the factory"))
     });
     let mut cases = vec![];
     for n in 0..a.cases {
@@ -91,7 +97,7 @@ pub fn run(a: &Args) {
                     meta: gen_md(&mut rng, true).into_iter().map(|(key, value)| pb::MetaEntry { key, value }).collect() }
             }).collect();
             shared.lock().unwrap().disc_reply = reply.clone();
-            let res = rt.block_on(disc.discover());
+            let res = if n % 4 == 0 { rt.block_on(disc_app.discover()) } else { rt.block_on(disc.discover()) };
             let mut why = vec![];
             // oracle: field-wise equality, or an error for any malformed entry
             let expect: Option<Vec<(String, SocketAddr, HashMap<String, String>)>> = reply.iter().map(|w| {
@@ -133,7 +139,7 @@ pub fn run(a: &Args) {
             let echo = |t: &Target| pb::Target { identifier: t.identifier.clone(), address: Some(pb::Address { hostname: t.address.ip().to_string(), port: u32::from(t.address.port()) }), meta: t.meta.iter().map(|(k, v)| pb::MetaEntry { key: k.clone(), value: v.clone() }).collect() };
             let reply: Option<Option<pb::Target>> = match mode { 0 => Some(Some(echo(&cands[pick]))), 3 => None, _ => custom };
             shared.lock().unwrap().sel_reply = reply.clone();
-            let res = rt.block_on(strat.select(&client, (&server.0, server.1), proto, (&user, &uid), cands.clone()));
+            let res = if n % 4 == 1 { rt.block_on(strat_app.select(&client, (&server.0, server.1), proto, (&user, &uid), cands.clone())) } else { rt.block_on(strat.select(&client, (&server.0, server.1), proto, (&user, &uid), cands.clone())) };
             let got_req = shared.lock().unwrap().last_req.clone();
             let mut why = vec![];
             match &got_req {
